@@ -756,7 +756,13 @@ pub(crate) fn add_model<P: ProtoModel>(
     executor: &Executor,
     abort_signal: &Signal,
     model_names: &mut Vec<String>,
+    observers: &mut Vec<(String, Box<dyn ChannelObserver>)>,
 ) {
+    // Register a mailbox observer for deadlock reports; this function is also
+    // the entry point for sub-models, which must be reported like any other
+    // model of the simulation.
+    observers.push((name.clone(), Box::new(mailbox.0.observer())));
+
     #[cfg(feature = "tracing")]
     let span = tracing::span!(target: env!("CARGO_PKG_NAME"), tracing::Level::INFO, "model", name);
 
@@ -767,6 +773,7 @@ pub(crate) fn add_model<P: ProtoModel>(
         executor,
         abort_signal,
         model_names,
+        observers,
     );
     let model = model.build(&mut build_cx);
 
